@@ -22,6 +22,7 @@ import (
 	"k8s.io/apimachinery/pkg/util/rand"
 
 	"istio.io/istio/pkg/log"
+	"istio.io/istio/pkg/simhook"
 )
 
 // Task to be performed.
@@ -137,6 +138,7 @@ func (q *queueImpl) processNextItem() bool {
 		return false
 	}
 
+	simhook.Yield("queue.task", q.id)
 	// Run the task.
 	if err := task.task(); err != nil {
 		delay := q.delay
